@@ -32,9 +32,9 @@ instance (s : Str) : Decidable (Seg s) := by unfold Seg; infer_instance
 
 theorem parsePath3 (a b c : Str) :
     parsePath [a, b, c] =
-      if a ∈ driveTypes ∧ b = ['d'] ∧ c ≠ [] then .ok (some (.file a c)) else .ok none := by
+      if a ∈ driveTypes ∧ b = ['d'] ∧ strip c ≠ [] then .ok (some (.file a (strip c))) else .ok none := by
   simp only [parsePath, idx, isPub, fileBranch, List.length_cons, List.length_nil]
-  by_cases h1 : a ∈ driveTypes <;> by_cases h2 : b = ['d'] <;> by_cases h3 : c = [] <;>
+  by_cases h1 : a ∈ driveTypes <;> by_cases h2 : b = ['d'] <;> by_cases h3 : strip c = [] <;>
     simp [h1, h2, h3]
 
 theorem isPub4 (a b c d : Str) (rest : List Str) :
@@ -49,7 +49,7 @@ theorem parsePath4 (a b c d : Str) (rest : List Str) :
       if a ∈ driveTypes ∧ b = ['d'] then
         (if (d :: rest).getLast? = some "pub".toList then
           (if c = ['e'] ∧ d ≠ [] then .ok (some (.publicLink a d)) else .ok none)
-         else (if c ≠ [] then .ok (some (.file a c)) else .ok none))
+         else (if strip c ≠ [] then .ok (some (.file a (strip c))) else .ok none))
       else .ok none := by
   have hlen : ¬ (rest.length + 1 + 1 + 1 + 1 < 3) := by omega
   simp only [parsePath, idx, isPub4, fileBranch, pubBranch, List.length_cons]
@@ -58,7 +58,7 @@ theorem parsePath4 (a b c d : Str) (rest : List Str) :
     by_cases h1 : a ∈ driveTypes <;> by_cases h2 : b = ['d'] <;>
       by_cases h4 : c = ['e'] <;> by_cases h5 : d = [] <;> simp [h1, h2, h4, h5, hlen]
   · simp only [h6, decide_false]
-    by_cases h1 : a ∈ driveTypes <;> by_cases h2 : b = ['d'] <;> by_cases h3 : c = [] <;>
+    by_cases h1 : a ∈ driveTypes <;> by_cases h2 : b = ['d'] <;> by_cases h3 : strip c = [] <;>
       simp [h1, h2, h3, hlen]
 
 /-! ## totality -/
@@ -77,8 +77,11 @@ theorem parsePath_total (path : List Str) (e : Err) : parsePath path ≠ .error 
 
 /-! ## what a returned record looks like -/
 
+/-- the id of a public link is a segment; the id of a file is a stripped segment -/
 theorem parsePath_spec (path : List Str) (r : Record) (h : parsePath path = .ok (some r)) :
-    r.ty ∈ driveTypes ∧ r.ident ≠ [] ∧ r.ident ∈ path := by
+    r.ty ∈ driveTypes ∧ r.ident ≠ [] ∧
+      ((∃ ty id, r = .publicLink ty id ∧ id ∈ path) ∨
+       (∃ ty seg, r = .file ty (strip seg) ∧ seg ∈ path)) := by
   match path, h with
   | [], h => simp [parsePath] at h
   | [_], h => simp [parsePath] at h
@@ -88,7 +91,7 @@ theorem parsePath_spec (path : List Str) (r : Record) (h : parsePath path = .ok 
     split at h
     · rename_i hc
       simp at h; subst h
-      simp [Record.ty, Record.ident, hc.1, hc.2.2]
+      exact ⟨hc.1, hc.2.2, Or.inr ⟨a, c, rfl, by simp⟩⟩
     · simp at h
   | a :: b :: c :: d :: rest, h =>
     rw [parsePath4] at h
@@ -98,12 +101,12 @@ theorem parsePath_spec (path : List Str) (r : Record) (h : parsePath path = .ok 
       · split at h
         · rename_i hd
           simp at h; subst h
-          simp [Record.ty, Record.ident, hc.1, hd.2]
+          exact ⟨hc.1, hd.2, Or.inl ⟨a, d, rfl, by simp⟩⟩
         · simp at h
       · split at h
         · rename_i hd
           simp at h; subst h
-          simp [Record.ty, Record.ident, hc.1, hd]
+          exact ⟨hc.1, hd, Or.inr ⟨a, c, rfl, by simp⟩⟩
         · simp at h
     · simp at h
 
@@ -120,17 +123,30 @@ theorem parse_google_drive_url_spec (url : Str) (r : Record)
     · simp at h
     · exact ⟨sr, rfl, h⟩
 
-/-- a returned record has a drive type of `DRIVE_TYPES` and a non-empty id that is a path
-segment of the url: no `/`, `?`, `#`, TAB, CR, LF -/
-theorem record_wf (url : Str) (r : Record) (h : parse_google_drive_url url = .ok (some r)) :
-    r.ty ∈ driveTypes ∧ r.ident ≠ [] ∧ Seg r.ident := by
-  obtain ⟨sr, hs, hp⟩ := parse_google_drive_url_spec url r h
-  obtain ⟨h1, h2, h3⟩ := parsePath_spec _ r hp
-  refine ⟨h1, h2, ?_⟩
+theorem seg_of_pathsplit (url : Str) (sr : SplitResult) (hs : safe_urlsplit url = some sr) (x : Str)
+    (hx : x ∈ pathsplit sr.path) : Seg x := by
   intro c hc
-  obtain ⟨h4, h5⟩ := pathsplit_mem _ _ h3
+  obtain ⟨h4, h5⟩ := pathsplit_mem _ _ hx
   have := safe_urlsplit_path_chars url sr hs c (h5 c hc)
   exact ⟨fun e => h4 (e ▸ hc), this.1, this.2.1, this.2.2⟩
+
+/-- a returned record has a drive type of `DRIVE_TYPES` and a non-empty id that is a path
+segment of the url: no `/`, `?`, `#`, TAB, CR, LF; the id of a *file* neither starts nor ends
+with white space -/
+theorem record_wf (url : Str) (r : Record) (h : parse_google_drive_url url = .ok (some r)) :
+    r.ty ∈ driveTypes ∧ r.ident ≠ [] ∧ Seg r.ident ∧ (∀ ty id, r = .file ty id → Stripped id) := by
+  obtain ⟨sr, hs, hp⟩ := parse_google_drive_url_spec url r h
+  obtain ⟨h1, h2, h3⟩ := parsePath_spec _ r hp
+  refine ⟨h1, h2, ?_, ?_⟩
+  · rcases h3 with ⟨ty, id, e, hm⟩ | ⟨ty, seg, e, hm⟩
+    · subst e; exact seg_of_pathsplit url sr hs id hm
+    · subst e
+      intro c hc
+      exact seg_of_pathsplit url sr hs seg hm c (mem_of_mem_strip _ _ hc)
+  · intro ty id e
+    rcases h3 with ⟨ty', id', e', _⟩ | ⟨ty', seg, e', _⟩
+    · rw [e'] at e; cases e
+    · rw [e'] at e; cases e; exact strip_stripped seg
 
 /-! ## re-parsing `record.url` -/
 
